@@ -452,9 +452,13 @@ struct Stats {
     read_calls: u64,
     read_states: u64,
     accesses: u64,
+    stale_readers: u64,
 }
 
 fn run_one<V: VK>(steps: &[Value], cfg: &Cfg, st: &mut Stats, bidx: usize) {
+    // behaviours are independent runs: registrations of readers that an earlier behaviour left behind (a reader dropped
+    // on another thread, or never dropped) must not be matched against this behaviour's mapping
+    st.stale_readers += rawdb::verif::access_tap_reset_thread() as u64;
     let scratch = Scratch::new("vec");
     let name = "v";
     let mut db = Some(Database::open(scratch.path()).expect("open db"));
@@ -925,7 +929,7 @@ pub fn main(args: &[String]) -> i32 {
     let out = json!({
         "format": format, "type": ty, "k": k, "block": block, "special": special,
         "behaviours": st.behaviours, "steps": st.steps, "distinct_nontrivial": st.nontrivial.len(),
-        "ops": st.ops, "cut_permitted": st.cut_permitted,
+        "ops": st.ops, "cut_permitted": st.cut_permitted, "stale_reader_registrations": st.stale_readers,
         "known": st.known.iter().map(|(d, (c, h))| json!({"dev": d, "count": c, "history": h})).collect::<Vec<_>>(),
         "read_calls": st.read_calls, "read_states": st.read_states, "accesses_checked": st.accesses,
         "pages_checked": st.pages_checked, "pages_equal_model": st.pages_equal_model, "pages_differ_model": st.pages_differ_model,
